@@ -400,6 +400,13 @@ class C15(SmallSuite):
                 o = {"op": "evaluate", "slot": s, "pt": rng.randrange(len(pts[mk]))}
                 if rng.random() < 0.3:
                     o["buf"] = True      # the caller re-uses one work buffer per instance, overwritten in place
+                if rng.random() < 0.08:
+                    # a request with a non-finite coordinate in between (a caller's slip: the benchmark may raise or return
+                    # nan/inf) - it must not change what the instance answers afterwards
+                    ops.append({"op": "evaluate_bad", "slot": s, "coord": rng.randrange(5), "value": rng.choice(["inf", "-inf", "nan"]),
+                                "pt": rng.randrange(len(pts[mk]))})
+                if rng.random() < 0.15:
+                    o["int_if_integral"] = True     # coordinates that are whole numbers are passed as python/numpy ints
                 v = rng.random()
                 if v < 0.2:
                     o["holder"] = "reuse"    # one value holder per instance, re-used for every evaluation
@@ -467,6 +474,21 @@ class C15(SmallSuite):
                     s = Solver(prob, parameters=SolverParameters(r=3.0, eps=0.01, itersLimit=100))
                     s.DoGlobalIteration(int(op["k"]))
                     events.append("solve_some")
+                elif k == "evaluate_bad":
+                    prob = slots.get(op["slot"])
+                    if prob is None:
+                        continue
+                    mk = plan_slot_member(plan, op["slot"])
+                    ptb = list(pts[mk][op["pt"]])
+                    ptb[op["coord"] % len(ptb)] = float(op["value"])
+                    rep.probes["non_finite_requests"] += 1
+                    try:
+                        prob.Calculate(Point(np.array(ptb, dtype=np.double), []), FunctionValue())
+                        events.append("evaluate_bad answered")
+                    except core.HarnessError:
+                        raise
+                    except Exception as e:
+                        events.append("evaluate_bad raised %s" % type(e).__name__)
                 elif k == "evaluate":
                     prob = slots.get(op["slot"])
                     if prob is None:
@@ -486,7 +508,10 @@ class C15(SmallSuite):
                         rep.probes["reused_buffer_evaluations"] += 1
                     else:
                         arr = np.array(pt, dtype=np.double)
-                    cp = np.array(arr, copy=True)
+                    if op.get("int_if_integral") and not op.get("buf") and all(float(v).is_integer() for v in pt):
+                        arr = np.array([int(v) for v in pt]) if (i % 2) else [int(v) for v in pt]     # int64 array / list of python ints
+                        rep.probes["int_typed_points"] += 1
+                    cp = np.array(arr, copy=True) if not isinstance(arr, list) else list(arr)
                     holder = FunctionValue() if fid is None else FunctionValue(FunctionType.CONSTRAINT, fid)
                     if op.get("holder") == "reuse":
                         holder = holders.setdefault((op["slot"], fid), holder)
@@ -500,7 +525,7 @@ class C15(SmallSuite):
                     if ret is not holder:
                         bad("holder_identity", "op %d: %s.Calculate did not return the supplied value holder" % (i, members[mk]["cls"]))
                         break
-                    if not _arr_eq(arr, cp):
+                    if not (_arr_eq(arr, cp) if not isinstance(arr, list) else arr == cp):
                         bad("point_modified", "op %d: %s.Calculate modified the point %r -> %r" % (i, members[mk]["cls"], list(cp), list(arr)))
                         break
                     got = float(holder.value)
@@ -776,6 +801,9 @@ class C19(SmallSuite):
         maxlen = rng.choice([None, None, 1, 2, 3, 5])
         distinct = rng.random() < 0.35
         alphabet = [0.0, 1.0, 2.5, -1.0, 7.0]
+        if rng.random() < 0.15:
+            # characteristics that differ in the 7th-9th significant digit, or are all tiny: "equal" must mean equal
+            alphabet = rng.choice([[1.0, 1.00000005, 1.0000001, 0.99999995, 1.0000002], [1e-9, 2e-9, 1.5e-9, 0.0, 3e-9]])
         serial = [0]
 
         def key():
@@ -828,9 +856,13 @@ class C19(SmallSuite):
             elif u < 0.9:
                 ops.append({"op": "set_r", "i": rng.randrange(len(xs)), "g": key() if rng.random() < 0.8 else None,
                             "l": key() if rng.random() < 0.5 else None})
-            elif u < 0.96:
+            elif u < 0.93:
                 q = rng.choice([rng.random(), rng.choice(xs[:-1]), 0.0])
                 ops.append({"op": "find", "x": q})
+            elif u < 0.96:
+                # an insertion the container has to reject (a coordinate no interval covers, no hint): whatever it does -
+                # raise, or append at the end - what it holds afterwards must still be exactly what was inserted
+                ops.append({"op": "insert_bad", "x": rng.choice([1.0, 1.0, 1.5, 7.0]), "g": key(), "l": key()})
             else:
                 ops.append({"op": rng.choice(["count", "walk", "last"])})
         return {"property": self.prop, "suite": "containers", "format": 1, "run_seed": run_seed, "kind": kind,
@@ -1014,6 +1046,29 @@ class C19(SmallSuite):
                 events.append("insert %r hint=%r" % (x, op["hint"]))
                 if not check_structure("op %d insert" % i):
                     return
+            elif k == "insert_bad":
+                ni, it = mk(op["x"], op["g"], op["l"])
+                rep.probes["rejected_insertions"] += 1
+                try:
+                    sd.InsertDataItem(it)
+                    accepted = True
+                except core.HarnessError:
+                    raise
+                except Exception as e:
+                    accepted = False
+                    events.append("insert_bad raised %s" % type(e).__name__)
+                if accepted:
+                    model.place(ni, None)
+                    model.qg.push(op["g"], ni)
+                    if dual:
+                        model.ql.push(op["l"], ni)
+                    events.append("insert_bad accepted")
+                else:
+                    del model.items[ni]
+                    del items[ni]
+                mutated = True
+                if not check_structure("op %d rejected insertion" % i):
+                    return
             elif k in ("best_g", "best_l"):
                 which = k[-1]
                 got = sd.GetDataItemWithMaxGlobalR() if which == "g" else sd.GetDataItemWithMaxLocalR()
@@ -1066,7 +1121,10 @@ class C19(SmallSuite):
                 if not check_structure("op %d %s" % (i, k)):
                     return
             elif k == "last":
-                sd.GetLastItem()
+                last = sd.GetLastItem()
+                if id_of(last) is None:
+                    bad("last_item", "op %d: GetLastItem() returned an item that was never (successfully) inserted" % i)
+                    return
         if model.qg.overflow or (dual and model.ql.overflow):
             rep.inconclusive["state_set_capped"] += 1
         if len(plan["ops"]) >= 8 and best_after:
